@@ -217,8 +217,10 @@ def builder_stages(prop, tier, seed):
     rand_worlds = builder_stage("randomworlds", prop, seed, {}, generator=["buildergen", "-n", "2500" if q else "50000"], exhaustive=False)
     live = [dict(kind="design", name="live1", module="Live_Builder", cfg="Live_Builder.cfg", properties=["Terminates", "EachDrainEnds", "QueuesBounded"]),
             dict(kind="design", name="live2", module="Live_Builder", cfg="Live_Builder2.cfg", properties=["Terminates", "EachDrainEnds", "QueuesBounded"])]
+    # finders that return warnings, with every source added twice: an analysis that ended with warnings is still done
+    warnrep = builder_stage("warnrepeat", prop, seed, {"DiagKinds": '{"none", "warn"}', "MaxEdges": "0", "MaxAdds": "2", "Adds": "<- MCAddsR", "RegPkgs": "{}"})
     if prop == "C14":
-        return [base, fan, sched, finders, conc, rand_worlds] if q else live + [conc, rand_worlds, base, fan, sched, sched3, finders, builder_stage("graph3", prop, seed, {"MaxEdges": "3", "Finders": '{"F1", "F2"}', "Adds": "<- MCAdds3", "Pkgs": '{"P1", "P2", "P3"}'}, sim={"num": 40000, "depth": 60}, workers=1)]
+        return [base, fan, sched, finders, warnrep, conc, rand_worlds] if q else live + [conc, rand_worlds, base, fan, sched, sched3, finders, warnrep, builder_stage("graph3", prop, seed, {"MaxEdges": "3", "Finders": '{"F1", "F2"}', "Adds": "<- MCAdds3", "Pkgs": '{"P1", "P2", "P3"}'}, sim={"num": 40000, "depth": 60}, workers=1)]
     # finders that return warnings together with the dependencies they report
     warn = builder_stage("warn", prop, seed, {"DiagKinds": '{"none", "warn"}', "MaxEdges": "2", "MaxAdds": "1", "Adds": "<- MCAddsR", "RegPkgs": "{}"})
     if prop == "C08":
@@ -661,7 +663,8 @@ def check(vc, prop, tier, seed, t0):
                    exhaustive=bool(exhaustive and rc == 0), agree=agree, drift=mismatch,
                    flag_counts=flag_counts, known_findings=sorted(hits.keys()), stages=stage_info,
                    repo=vc.REPO)
-        vc.write_evidence(prop, tier, seed, cov, time.time() - t0, len(viol), P["assume"])
+        if not (only or os.environ.get("VERIF_REPO")):     # evidence describes whole checks of /repo itself
+            vc.write_evidence(prop, tier, seed, cov, time.time() - t0, len(viol), P["assume"])
         print("%s %s: %d cases replayed (%d agree, %d drift), %d states / %d transitions, %d violations, %d known-finding classes, %.0fs" % (
             prop, tier, total, agree, mismatch, states, transitions, len(viol), len(hits), time.time() - t0))
         if total == 0:
